@@ -85,6 +85,8 @@ pub enum POp {
     Tick,
     /// the leader disappears; the follower is stopped (shutdown sequence) and restarted as leader
     Promote,
+    /// a client of the follower node itself (its REST / SSE endpoints serve reads) comes and goes
+    FollowerSession,
     /// the leader disappears and the follower node is lost abruptly as well (no shutdown sequence);
     /// it is restarted as leader from what its last flush wrote
     Kill,
@@ -199,6 +201,18 @@ impl Scenario for PromoScenario {
                             Err(e) => violation = Some(e),
                         }
                         class = "join".into();
+                    }
+                    POp::FollowerSession => {
+                        let Some(f) = follower_node.as_mut() else {
+                            if last {
+                                subsys.request_global_shutdown();
+                                return None;
+                            }
+                            panic!("MACHINERY: follower session without follower in prefix");
+                        };
+                        f.wb.connected(cid(9), None, &worterbuch_common::Protocol::HTTP).await.ok();
+                        f.wb.disconnected(cid(9), None).await.ok();
+                        class = "follower-session".into();
                     }
                     POp::Tick => {
                         let Some(f) = follower_node.as_mut() else {
@@ -362,7 +376,7 @@ fn sys_key(c: C, leaf: &str) -> String {
 
 pub fn scenario(open: BTreeSet<String>) -> PromoScenario {
     let s = |x: &str| x.to_owned();
-    let mut ops = vec![POp::Join, POp::Tick, POp::Promote, POp::Kill];
+    let mut ops = vec![POp::Join, POp::Tick, POp::Promote, POp::Kill, POp::FollowerSession];
     ops.push(POp::Api(Op::Connect(0)));
     ops.push(POp::Api(Op::Connect(1)));
     ops.push(POp::Api(Op::Disconnect(0)));
